@@ -9,6 +9,7 @@ import (
 	"regexp"
 	"strconv"
 	"strings"
+	"unicode/utf8"
 )
 
 var (
@@ -815,6 +816,33 @@ func unquote(s string) string {
 	return quotedIdentEscapePattern.ReplaceAllStringFunc(s[1:len(s)-1], quotedIdentUnescape)
 }
 
+// validEscapeSequences checks if every octal or hexadecimal escape sequence in the quoted token s denotes a code point.
+func validEscapeSequences(s string) bool {
+	for _, m := range quotedIdentEscapePattern.FindAllString(s[1:len(s)-1], -1) {
+		if len(m) < 3 || m[len(m)-1] != '\\' { // Not an octal or hexadecimal escape sequence.
+			continue
+		}
+		if _, ok := numericEscape(m); !ok {
+			return false
+		}
+	}
+	return true
+}
+
+// numericEscape returns the rune denoted by an octal or hexadecimal escape sequence s, e.g. `\x23\` or `\23\`.
+func numericEscape(s string) (rune, bool) {
+	s = s[1 : len(s)-1] // `x23` or `23`
+	base := 8
+
+	if s[0] == 'x' {
+		s = s[1:]
+		base = 16
+	}
+
+	r, err := strconv.ParseInt(s, base, 4*8) // rune is up to 4 bytes
+	return rune(r), err == nil && utf8.ValidRune(rune(r))
+}
+
 func quotedIdentUnescape(s string) string {
 	switch s {
 	case "''":
@@ -844,16 +872,8 @@ func quotedIdentUnescape(s string) string {
 	case "\\`":
 		return "`"
 	default: // `\x23\` or `\23\`
-		s = s[1 : len(s)-1] // `x23` or `23`
-		base := 8
-
-		if s[0] == 'x' {
-			s = s[1:]
-			base = 16
-		}
-
-		r, _ := strconv.ParseInt(s, base, 4*8) // rune is up to 4 bytes
-		return string(rune(r))
+		r, _ := numericEscape(s)
+		return string(r)
 	}
 }
 
